@@ -164,6 +164,22 @@ pub fn run(t: &[&str]) -> String {
                 Err(e) => show_err(&e),
             }
         }
+        "rtframe" => {
+            // a body of n bytes written by write_message and read back by read_message
+            let n: usize = t[1].parse().unwrap();
+            let body: Vec<u8> = (0..n).map(|i| (i * 31 + 7) as u8).collect();
+            let mut w: Vec<u8> = Vec::new();
+            match write_message(&mut w, &body) {
+                Ok(()) => {
+                    let mut c = Cursor::new(w);
+                    match read_message(&mut c) {
+                        Ok(b) => if b == body { "ok".into() } else { "differs".into() },
+                        Err(e) => show_err(&e),
+                    }
+                }
+                Err(e) => show_err(&e),
+            }
+        }
         x => panic!("bad wire case {x}"),
     }
 }
